@@ -14,12 +14,16 @@ NONLIN = ["P", "e", "omega", "M0", "s"]
 
 
 def cases(tier, seed):
-    for pt_, no in ((1, 0), (2, 0), (1, 1), (2, 1)):
+    for pt_, no in ((1, 0), (2, 0), (1, 1), (2, 1), (3, 1), (4, 0)):
         lin = ["K"] + [f"v{i}" for i in range(pt_)]
         off = [f"dv0_{i}" for i in range(1, no + 1)]
         yield f"ok/{pt_}/{no}", {"kind": "prior", "pt": pt_, "no": no, "defect": None, "par": None}
         for par in NONLIN + lin + off:
             defects = ["omit", "no-unit", "wrong-dim"] if par not in off else ["no-unit", "wrong-dim"]
+            if par[0] == "v":          # a velocity per time**(i +- 1) is not convertible to the canonical unit of v_i either
+                defects += ["next-order", "previous-order"]
+            if (pt_, no) in ((3, 1), (4, 0)) and par[0] != "v":
+                continue
             if par in lin + off:
                 defects += ["uniform", "studentt", "deterministic", "halfnormal", "lognormal", "truncatednormal", "skewnormal"]
             if tier == "quick" and (pt_, no) != (2, 1) and par in ("e", "M0", "s"):
@@ -29,6 +33,7 @@ def cases(tier, seed):
     for nsrc in (1, 2, 3):
         for no in (0, 1, 2, 3):
             yield f"count/{nsrc}/{no}", {"kind": "count", "nsrc": nsrc, "no": no}
+    yield "count/emptied-source", {"kind": "emptied"}
     for bad in ("not-rvdata", "covariance"):
         yield f"source/{bad}", {"kind": "source", "bad": bad}
     yield "history/container-mutated-between-calls", {"kind": "history"}
@@ -85,7 +90,9 @@ def _pars(pt_, no, defect, par):
                 v.name = name
             else:
                 v = pm.Normal(name, 0.0, 10.0)
-            if d != "no-unit":
+            if d in ("next-order", "previous-order"):
+                v = xu.with_unit(v, u.km / u.s / u.day ** (int(name[1:]) + (1 if d == "next-order" else -1)))
+            elif d != "no-unit":
                 v = xu.with_unit(v, wrong.get(name, u.day) if d == "wrong-dim" else unit)
             if name.startswith("dv0_"):
                 offs.append(v)
@@ -169,6 +176,24 @@ def check(inp):
                 ok1 = False
             if ok1 != (inp["no"] == 0):
                 bad("validate_prepare_data", "source-count-must-match-offset-priors[list-of-one]", n_offsets=inp["no"])
+        return fails
+    if inp["kind"] == "emptied":
+        # three listed sources, the middle one without a single finite row (cleaned to an empty RVData): two surveys contribute epochs, so the design
+        # matrix has ONE offset column - accepted with one offset prior at most, never with two
+        from astropy.time import Time
+        from thejoker import RVData
+        from thejoker.data_helpers import validate_prepare_data
+        tref = Time(55000.0, format="mjd", scale="tcb")
+        mk = lambda k, nan: RVData(Time(55000.0 + 40.0 * k + np.arange(4) * 7.0, format="mjd", scale="tcb"),
+                                   (np.full(4, np.nan) if nan else np.arange(4) + 5.0 * k) * u.km / u.s, np.full(4, 0.5) * u.km / u.s, t_ref=tref)
+        srcs = [mk(0, False), mk(1, True), mk(2, False)]
+        for no in (1, 2):
+            try:
+                out = validate_prepare_data(srcs, 1, no)
+                if out[2].shape[1] != 1 + no:
+                    bad("validate_prepare_data", "one-design-matrix-column-per-linear-parameter[emptied-source]", n_offsets=no, columns=int(out[2].shape[1]))
+            except ValueError:
+                pass
         return fails
     if inp["kind"] == "source":
         from thejoker.data_helpers import validate_prepare_data
